@@ -13,9 +13,10 @@ PROPS_MODULE = 'Props.C10'
 THEOREMS = ['utf8_valid_spec', 'utf8_lossy_is_utf8', 'utf8_lossy_id', 'utf8_lossy_fuel_suffices',
             'char_from_u32_spec', 'csi_numbers_range',
             'stored_scalar_fill', 'fill_stores_iff', 'stored_scalar_clipboard', 'stored_scalar_icy_first',
-            'stored_scalar_icy_cont', 'strings_utf8_icy', 'strings_utf8_icy_identity', 'stored_scalar_glyphs', 'glyphs_keys_are_indices',
+            'stored_scalar_icy_cont', 'strings_utf8_icy', 'strings_utf8_icy_identity', 'stored_scalar_glyphs', 'glyphs_keys_are_indices', 'glyphs_complete',
             'stored_scalar_font_lookups', 'stored_scalar_hexmacro', 'strings_utf8_hexmacro',
             'clipboard_total', 'icy_cells_total', 'glyphs_total',
+            'fix_is_local_clipboard', 'fix_is_local_icy', 'fix_is_local_glyphs',
             'fill_before_fix_refuted', 'clipboard_before_fix_refuted', 'icy_before_fix_refuted',
             'glyphs_before_fix_refuted', 'strings_before_fix_refuted']
 SWEEP_LEMMAS = ['TextSitesProofs.hex_table_positions (every position in the regenerated HEX_TABLE is below 16)']
@@ -426,6 +427,8 @@ REGRESSIONS = [
     ('hexmacro', 'c10hexmacro ' + hx('1;0;1!zFFFEņņ'.encode('utf-8')), 'hex macro bytes FF FE and non-ASCII digits'),
 ]
 
+PARSERS = ['ascii', 'atascii', 'avatar', 'ctrla', 'mode7', 'pcboard', 'petscii', 'renegade', 'viewdata']
+
 def gen_stream(rng):
     out = []
     for _ in range(rng.randint(1, 6)):
@@ -460,6 +463,12 @@ def search_cases(ctx, broken):
     for case in gen_fonts(ctx): cs.append(('font', 'c10font %s %d %d %d' % case, None))
     for _ in range(cap(200, 3000)): cs.append(('hexmacro', 'c10hexmacro ' + hx(('1;0;1!z' + gen_hexmacro(rng)).encode('utf-8')), None))
     for _ in range(cap(300, 4000)): cs.append(('stream', 'c10stream ' + hx(gen_stream(rng).encode('utf-8')), None))
+    for _ in range(cap(200, 3000)):
+        # characters of the whole scalar range, many of them with a surrogate in their low 16 bits (char as u16)
+        chars = [rng.choice([0x10000, 0x20000, 0x30000, 0xF0000, 0x100000]) + rng.randrange(0xD800, 0xE000) if rng.random() < 0.4
+                 else rand_code(rng, 0x110000) for _ in range(rng.randint(1, 12))]
+        text = ''.join(chr(c) for c in chars if is_scalar(c) and c != 0x1b)
+        cs.append(('parser', 'c10parser %s %s' % (rng.choice(PARSERS), hx(text.encode('utf-8'))), None))
     for _ in range(cap(40, 400)):
         w, h = rng.randint(1, 6), rng.randint(1, 4)
         cells = []
@@ -496,7 +505,7 @@ def oracle(site, case, r):
         if v[3] != 0: return fail('invalid-char', '%d glyph keys are not scalar values' % v[3])
         if v[11] != 1: return fail('invalid-utf8', 'font name is not UTF-8')
     if kind == 'c10hexmacro' and v[2] != 0: return fail('invalid-char', '%d cells hold a non-scalar value' % v[2])
-    if kind == 'c10stream' and v[1] != 0: return fail('invalid-char', '%d cells hold a non-scalar value' % v[1])
+    if kind in ('c10stream', 'c10parser') and v[1] != 0: return fail('invalid-char', '%d cells hold a non-scalar value' % v[1])
     return None
 
 def search(ctx, broken):
